@@ -3,4 +3,4 @@ From IoraVerif Require Import C19.Model.
 Require Import ExtrOcamlBasic.
 Extraction Language OCaml.
 Extraction "../build/ocaml/c19_model.ml"
-  parse decode_name encode_name build_query c_run min_ttl.
+  parse decode_name encode_name build_query c_run min_ttl neg_ttl.
